@@ -139,7 +139,11 @@ def gen_source(rng, path, letter, off_min, boundaries, n, relayed=False):
     year_end = (c14.days_from_civil(y + 1, 1, 1) * 86400 - off_min * 60) * NS
     room = max(0, (year_end - NS) - last)
     r = rng.random()
-    if r < 0.4:
+    year_start = (c14.days_from_civil(y, 1, 1) * 86400 - off_min * 60) * NS
+    if rng.random() < 0.15 and last - year_start > 3 * DAY:
+        # a file restored or touched: its time lies in the last message's year, but days or months before that message
+        mtime_ns = rng.randrange(year_start // NS, (last - 2 * DAY) // NS) * NS
+    elif r < 0.4:
         mtime_ns = last + min(room, rng.choice((0, NS, 3600 * NS)))
     elif r < 0.55:
         mtime_ns = year_end - rng.choice((1, 2, 3600, 6 * 3600, 13 * 3600)) * NS
